@@ -45,6 +45,22 @@ def check_iteration(scfg):
         from .. import core
         core.CTX.hit("C16.skipped_no_unique_head")
         return stats
+    # "every block of the hierarchy" presupposes that every block can be
+    # reached from the head (an edit history can leave a headless cycle beside
+    # an orphan block that is then the only head)
+    g0 = scfg.graph
+    seen = {level_head(scfg)[0]}
+    stack = list(seen)
+    while stack:
+        for t in g0[stack.pop()].jump_targets:
+            if t in g0 and t not in seen:
+                seen.add(t)
+                stack.append(t)
+    if len(seen) != len(g0):
+        stats["skipped_unreachable_part"] = True
+        from .. import core
+        core.CTX.hit("C16.skipped_part_of_top_level_unreachable_from_head")
+        return stats
     # whole-hierarchy iteration
     want = [k for k, b, sc, par, d in all_items(scfg)]
     got_pairs = list(scfg)
